@@ -22,6 +22,7 @@ type verifModel struct {
 	Holes   map[string]map[string][]string `json:"holes"`     // line -> class -> values
 	BoolHoles map[string][]bool `json:"bool_holes"`
 	Params  map[string]string `json:"params"`
+	HolePos map[string]map[string][][2]string `json:"hole_pos"`
 }
 
 var (
@@ -78,6 +79,23 @@ func verifHoles(line, class string) []string {
 	return verifLoad().Holes[line][class]
 }
 func verifBoolHoles(line string) []bool { return verifLoad().BoolHoles[line] }
+
+// verifHolePaths / verifHoleClasses: index paths ("7.4.1") and classes of the template's
+// hole-bearing leaves (kind "leaf") or keys (kind "key"), in document order.
+func verifHolePaths(line, kind string) []string {
+	var out []string
+	for _, pc := range verifLoad().HolePos[line][kind] {
+		out = append(out, pc[0])
+	}
+	return out
+}
+func verifHoleClasses(line, kind string) []string {
+	var out []string
+	for _, pc := range verifLoad().HolePos[line][kind] {
+		out = append(out, pc[1])
+	}
+	return out
+}
 
 func verifAssume(c bool) {
 	if !c {
